@@ -80,11 +80,20 @@ class TZP:
         custom timezone is returned from timezone().
         """
         _unclean_id = timezone_component['TZID']
+        if isinstance(_unclean_id, list):
+            raise ValueError("A VTIMEZONE component must have exactly one TZID.")
         _id = self.clean_timezone_id(_unclean_id)
         if not self.__provider.knows_timezone_id(_id) \
             and not self.__provider.knows_timezone_id(_unclean_id) \
             and _id not in self.__tz_cache:
-            self.__tz_cache[_id] = timezone_component.to_tz(self, lookup_tzid=False)
+            try:
+                self.__tz_cache[_id] = timezone_component.to_tz(self, lookup_tzid=False)
+            except ValueError:
+                raise
+            except Exception as e:
+                # a malformed definition: missing DTSTART or offsets, a DATE
+                # instead of a DATE-TIME, no STANDARD observance, ...
+                raise ValueError(f"Invalid VTIMEZONE {_unclean_id}: {e!r}") from e
 
     def fix_rrule_until(self, rrule:rrule, ical_rrule:prop.vRecur) -> None:
         """Make sure the until value works."""
